@@ -13,6 +13,12 @@ in it.  Rules (each is a PEP 484 equivalence or a printer convention):
     class `C` of module `a` is printed `a.C`, in A's own stub `C`.
   * a stub's own import aliases are expanded: after `import a0 as z0` the
     annotation `z0.C` denotes `a0.C`                (Python import semantics)
+  * in a union, a class is absorbed by one of its (transitive) base classes
+    that is also a member: `Union[Base, Derived]` == `Base`; `bool` is
+    absorbed by `int`                               (PEP 484 subtyping; pytype's
+    own optimizer performs this simplification when it knows the hierarchy,
+    which depends on what else is loaded - the class hierarchy is given by
+    the caller, read from the upstream stub)
 """
 
 import ast
@@ -31,16 +37,49 @@ def _name(node):
 
 
 _ALIAS_STACK = [{}]
+_HIER_STACK = [{}]
 
 
-def norm(text, strip_modules=(), aliases=None):
-  """Annotation text -> canonical nested tuple."""
+def norm(text, strip_modules=(), aliases=None, ancestors=None):
+  """Annotation text -> canonical nested tuple. `ancestors`: class name (as it
+  appears after stripping) -> set of its transitive base-class names."""
   tree = ast.parse(text.strip(), mode="eval").body
   _ALIAS_STACK.append(aliases or {})
+  _HIER_STACK.append(dict(ancestors or {}, bool={"int"}))
   try:
     return _norm(tree, tuple(strip_modules))
   finally:
     _ALIAS_STACK.pop()
+    _HIER_STACK.pop()
+
+
+def class_ancestors(classes, prefix=""):
+  """{qualified class name: transitive bases} from a stub's class table
+  (simpair.read_stub format), nested classes included. Only bases that are
+  plain names of classes of the same stub count."""
+  direct = {}
+
+  def walk(table, pre):
+    for name, c in table.items():
+      q = pre + name
+      direct[q] = [b for b in c.get("bases", ())]
+      walk(c.get("classes", {}), q + ".")
+  walk(classes, prefix)
+  out = {}
+
+  def anc(q, seen=()):
+    if q in out:
+      return out[q]
+    res = set()
+    for b in direct.get(q, ()):
+      if b in direct and b not in seen:
+        res.add(b)
+        res |= anc(b, seen + (q,))
+    out[q] = res
+    return res
+  for q in direct:
+    anc(q)
+  return out
 
 
 def import_aliases(import_lines):
@@ -123,6 +162,11 @@ def _union(members):
     else:
       flat.append(m)
   uniq = sorted(set(flat))
+  hier = _HIER_STACK[-1]
+  if hier and len(uniq) > 1:
+    names = {m[0] for m in uniq if len(m) == 1}
+    uniq = [m for m in uniq
+            if not (len(m) == 1 and hier.get(m[0]) and hier[m[0]] & names)]
   if len(uniq) == 1:
     return uniq[0]
   return ("Union",) + tuple(uniq)
